@@ -230,6 +230,7 @@ func runC20(c *Ctx) {
 	c20Random(c)
 	c20Exhaustive(c)
 	c20Scripts(c)
+	bypassAdversarial(c, "mq_bypass")
 	garbageDecode(c, "mq_dec_garbage", c.N(400, 6000))
 }
 
@@ -408,36 +409,7 @@ func encState(e *mqc.MQEncoder, n int) string {
 
 func runScript(n int, cs []cmd) (res string) {
 	e := mqc.NewMQEncoder(n)
-	if p, _ := Safely(func() {
-		for _, k := range cs {
-			switch k.op {
-			case 0:
-				e.Encode(k.x, k.y)
-			case 1:
-				e.FlushToOutput()
-			case 2:
-				e.ErtermEnc()
-			case 3:
-				e.SegmarkEnc()
-			case 4:
-				e.BypassInitEnc()
-			case 5:
-				e.BypassEncode(k.x)
-			case 6:
-				e.BypassFlushEnc(k.x != 0)
-			case 7:
-				e.RestartInitEnc()
-			case 8:
-				e.ResetContexts()
-			case 9:
-				e.SetContextState(k.x, uint8(k.y))
-			case 10:
-				e.Reset()
-			case 11:
-				e.ResetContext(k.x)
-			}
-		}
-	}); p {
+	if p, _ := Safely(func() { applyCmds(e, cs) }); p {
 		return "panic"
 	}
 	return encState(e, n)
@@ -598,6 +570,217 @@ func c20Scripts(c *Ctx) {
 	})
 }
 
+// ---------- RAW (bypass) path driven directly and adversarially ----------
+
+// rawViolation checks a bypass segment: every FF is followed by a byte < 0x80 and (with
+// predictable termination) the segment does not end in FF.
+func rawViolation(seg []byte, erterm bool) string {
+	for i := 0; i+1 < len(seg); i++ {
+		if seg[i] == 0xFF && seg[i+1] >= 0x80 {
+			return fmt.Sprintf("FF %02X at offset %d of the raw segment", seg[i+1], i)
+		}
+	}
+	if erterm && len(seg) > 0 && seg[len(seg)-1] == 0xFF {
+		return "raw segment ends in FF under predictable termination"
+	}
+	return ""
+}
+
+type bypCase struct {
+	prefix []cmd // MQ segment + termination (may be empty)
+	bits   []int
+	erterm int
+	suffix []cmd // RestartInitEnc + MQ segment + Flush (may be empty)
+	kind   string
+	pkind  string
+}
+
+func bypassAdversarial(c *Ctx, suite string) {
+	rng := c.Rng.Fork()
+	var cases []bypCase
+	mkPrefix := func(kind int) ([]cmd, string) {
+		if kind == 0 {
+			return nil, "fresh"
+		}
+		cs := []cmd{{9, 18, 46}, {9, 17, 3}, {9, 0, 4}}
+		k := rng.Range(0, 60)
+		bias := rng.Pick(3, 30, 50, 97)
+		for i := 0; i < k; i++ {
+			cs = append(cs, cmd{0, b2i(rng.Intn(100) < bias), rng.Intn(19)})
+		}
+		switch kind {
+		case 1:
+			return append(cs, cmd{1, 0, 0}), "flush"
+		default:
+			return append(cs, cmd{2, 0, 0}), "erterm"
+		}
+	}
+	mkSuffix := func() []cmd {
+		cs := []cmd{{7, 0, 0}}
+		k := rng.Range(0, 40)
+		for i := 0; i < k; i++ {
+			cs = append(cs, cmd{0, rng.Intn(2), rng.Intn(19)})
+		}
+		return append(cs, cmd{1, 0, 0})
+	}
+	add := func(bits []int, kind string) {
+		for erterm := 0; erterm < 2; erterm++ {
+			for pk := 0; pk < 3; pk++ {
+				pre, pkind := mkPrefix(pk)
+				var suf []cmd
+				if rng.Intn(3) == 0 {
+					suf = mkSuffix()
+				}
+				cases = append(cases, bypCase{pre, append([]int(nil), bits...), erterm, suf, kind, pkind})
+			}
+		}
+	}
+	maxL := 40
+	for L := 0; L <= maxL; L++ {
+		ones := make([]int, L)
+		for i := range ones {
+			ones[i] = 1
+		}
+		add(ones, "allones")
+		for z := 0; z < L; z++ {
+			b := append([]int(nil), ones...)
+			b[z] = 0
+			add(b, "onezero")
+		}
+	}
+	// byte-boundary patterns: m FF bytes (8 then 7 one-bits each), then r further bits
+	for m := 0; m <= 3; m++ {
+		for r := 0; r <= 9; r++ {
+			for v := 0; v < 4; v++ {
+				var b []int
+				for i := 0; i < m; i++ {
+					n := 8
+					if i > 0 {
+						n = 7
+					}
+					for j := 0; j < n; j++ {
+						b = append(b, 1)
+					}
+				}
+				for j := 0; j < r; j++ {
+					switch v {
+					case 0:
+						b = append(b, 1)
+					case 1:
+						b = append(b, 0)
+					case 2:
+						b = append(b, j&1)
+					default:
+						b = append(b, rng.Intn(2))
+					}
+				}
+				add(b, "boundary")
+			}
+		}
+	}
+	nr := c.N(150, 3000)
+	for i := 0; i < nr; i++ {
+		L := rng.Range(0, 40)
+		if c.Thor && rng.Intn(4) == 0 {
+			L = rng.Range(40, 400)
+		}
+		b := make([]int, L)
+		p1 := rng.Pick(50, 80, 95, 99)
+		for j := range b {
+			b[j] = b2i(rng.Intn(100) < p1)
+		}
+		add(b, "random")
+	}
+	ParallelFor(len(cases), c.Work, func(i int) {
+		k := cases[i]
+		var cs []cmd
+		cs = append(cs, k.prefix...)
+		cs = append(cs, cmd{4, 0, 0})
+		for _, b := range k.bits {
+			cs = append(cs, cmd{5, b, 0})
+		}
+		cs = append(cs, cmd{6, k.erterm, 0})
+		seg := len(cs)
+		cs = append(cs, k.suffix...)
+		str := cmdsString(cs)
+		in := map[string]interface{}{"nctx": 19, "cmds": str, "erterm": k.erterm, "rawbits": len(k.bits)}
+		c.R.Case("mqb:"+str, true, "mq.bypass."+k.kind, "mq.bypass.prefix."+k.pkind, fmt.Sprintf("mq.bypass.erterm.%d", k.erterm))
+		if i == 7 {
+			c.R.Sample(map[string]interface{}{"suite": suite, "case": in})
+		}
+		// correspondence on the state right after BypassFlushEnc and at the end
+		uptos := []int{seg}
+		if len(k.suffix) > 0 {
+			uptos = append(uptos, len(cs))
+		}
+		for _, upto := range uptos {
+			{
+				want := runScript(19, cs[:upto])
+				got := ""
+				if c.HasModel() {
+					got = c.M.Call("mq_script", "19", cmdsString(cs[:upto]))
+				}
+				c.CorrEq(suite, "mq:bypass:"+k.kind, got, want, in)
+			}
+		}
+		// oracle on the implementation: the raw segment itself
+		c.R.Oracle(suite + "_no_marker")
+		var rawSeg []byte
+		if p, msg := Safely(func() {
+			e := mqc.NewMQEncoder(19)
+			applyCmds(e, k.prefix)
+			n0 := e.NumBytes()
+			e.BypassInitEnc()
+			for _, b := range k.bits {
+				e.BypassEncode(b)
+			}
+			e.BypassFlushEnc(k.erterm != 0)
+			buf := e.GetBuffer()
+			if n0 <= len(buf) {
+				rawSeg = append([]byte(nil), buf[n0:]...)
+			}
+		}); p {
+			c.R.Fail("oracle", suite+"_no_marker", "mq:bypass:panic", "bypass encoder panicked: "+msg, in)
+			return
+		}
+		if v := rawViolation(rawSeg, k.erterm != 0); v != "" {
+			in["segment"] = Hex(rawSeg)
+			c.R.Fail("oracle", suite+"_no_marker", "mq:bypass:marker", v, in)
+		}
+	})
+}
+
+func applyCmds(e *mqc.MQEncoder, cs []cmd) {
+	for _, k := range cs {
+		switch k.op {
+		case 0:
+			e.Encode(k.x, k.y)
+		case 1:
+			e.FlushToOutput()
+		case 2:
+			e.ErtermEnc()
+		case 3:
+			e.SegmarkEnc()
+		case 4:
+			e.BypassInitEnc()
+		case 5:
+			e.BypassEncode(k.x)
+		case 6:
+			e.BypassFlushEnc(k.x != 0)
+		case 7:
+			e.RestartInitEnc()
+		case 8:
+			e.ResetContexts()
+		case 9:
+			e.SetContextState(k.x, uint8(k.y))
+		case 10:
+			e.Reset()
+		case 11:
+			e.ResetContext(k.x)
+		}
+	}
+}
+
 // ---------- decoders on arbitrary bytes (C08 and part of C20) ----------
 
 func genGarbage(rng *Rand, i int) []byte {
@@ -732,7 +915,8 @@ func runC08(c *Ctx) {
 // ---------- C16: no marker code inside MQ output ----------
 
 func runC16(c *Ctx) {
-	c.R.Rule = "MQ encoder output (Flush) for random (bit,ctx) sequences: no FF followed by > 0x8F, no trailing FF; non-trivial = length > 0"
+	c.R.Rule = "MQ encoder output (Flush) for random (bit,ctx) sequences: no FF followed by > 0x8F, no trailing FF; non-trivial = length > 0; " +
+		"RAW segments (BypassInit/BypassEncode*/BypassFlush, erterm 0/1, after fresh/Flush/Erterm): all-ones 0..40, one zero at each position, byte-boundary FF patterns, random: FF followed by < 0x80, no trailing FF under erterm"
 	n := c.N(700, 5000)
 	rng := c.Rng.Fork()
 	cases := make([]seq, n)
@@ -774,4 +958,5 @@ func runC16(c *Ctx) {
 			c.R.Fail("oracle", "mq_no_marker", "mq:marker", v, s.input())
 		}
 	})
+	bypassAdversarial(c, "mq_bypass")
 }
